@@ -1,6 +1,7 @@
 (* C20 — Huffman code construction and bit I/O. Models: Prefix/Code.v
    (GenerateLengths with any limit, GeneratePrefixes), bit fields as bit lists. *)
 From Coq Require Import Sorting.Sorted Sorting.Permutation.
+From V Require Import Prefix.DecTable Prefix.DecTableSpec Prefix.DecTableThms Prefix.DecReadThms Prefix.DecReadBufThms Prefix.EncTableThms Prefix.EncDecThms Prefix.DecCanonThms Prefix.DecGenLink.
 From V Require Import Prefix.GenPrefixesThms Prefix.GenLengthsThms Prefix.GenPipelineThms.
 From V Require Import Prefix.WriterImpl Prefix.WriterSpec Prefix.WriterThms.
 From V Require Import Prefix.ReaderImpl Prefix.ReaderSpec Prefix.ReaderThms.
@@ -133,3 +134,68 @@ Theorem gen_lengths_output_is_accepted_by_gen_prefixes : forall maxBits codes,
                   forall e, In e out -> 1 <= e_len e <= maxBits.
 Proof. exact gen_lengths_then_prefixes. Qed.
 Print Assumptions gen_lengths_output_is_accepted_by_gen_prefixes.
+
+(* THE TWO-LEVEL DECODER TABLE, implementation level (decoder.go Init: chunks / links arrays
+   recycled from earlier use with ARBITRARY stale contents, first-level table of min(maxLen, 9)
+   bits, link tables for longer codes; the lookup is one body of ReadSymbol's loop; model run
+   against the real tables and ReadSymbol on every run, WDECTAB). For every valid code
+   (complete and prefix-free in reading order, lengths <= 31) and any stale contents: Init does
+   not panic and the lookup of any bit-buffer value whose low bits are a code word returns
+   exactly that code's (symbol, length), through the chunk table or through a link table *)
+Theorem decoder_table_lookup_is_the_code : forall L codes oldC oldL, L <= 31 -> dec_valid L codes ->
+  exists d, dec_init oldC oldL codes = IOk d /\ tables_ok codes d /\
+    forall b c, In c codes -> matches c b ->
+      dec_lookup d b = Some (c_sym c mod 2 ^ 27, c_len c).
+Proof. exact dec_table_correct. Qed.
+Print Assumptions decoder_table_lookup_is_the_code.
+
+(* ... and the tables do not depend on what the recycled arrays held before (a complete code
+   overwrites every entry): Reset / reuse of a Decoder is invisible *)
+Theorem decoder_table_independent_of_stale_arrays : forall L codes oldC oldL oldC' oldL',
+  L <= 31 -> dec_valid L codes ->
+  exists d d',
+    dec_init oldC oldL codes = IOk d /\ dec_init oldC' oldL' codes = IOk d' /\
+    d_chunkMask d = d_chunkMask d' /\ d_linkMask d = d_linkMask d' /\
+    d_chunkBits d = d_chunkBits d' /\ d_minBits d = d_minBits d' /\ d_numSyms d = d_numSyms d' /\
+    d_nlinks d = d_nlinks d' /\ d_linkLen d = d_linkLen d' /\
+    (forall i, arr_get (d_chunks d) i = arr_get (d_chunks d') i) /\
+    (forall x, arr_get (d_flat d) x = arr_get (d_flat d') x).
+Proof. exact dec_init_independent. Qed.
+Print Assumptions decoder_table_independent_of_stale_arrays.
+
+(* ReadSymbol over the implementation-level bit reader, ReadByte source: for zero-minimal codes
+   (all canonical codes are) it returns the symbol of the code word at the read position,
+   consumes exactly its bits, and has pulled from the source exactly the bytes that hold them -
+   never a byte beyond the code word *)
+Theorem read_symbol_is_byte_exact_on_bytereader : forall big data,
+  (forall b, In b data -> b < 256) ->
+  forall L codes, L <= 31 -> dec_valid L codes ->
+  forall d, tables_ok codes d ->
+  forall R p c, zero_min codes ->
+    ReaderThms.Inv big data R p -> ZA data p -> In c codes -> matches c (window big data R) ->
+    (R + N.to_nat (c_len c) <= 8 * length data)%nat ->
+    exists p', dt_read_symbol d p = (RSym (c_sym c mod 2 ^ 27), p') /\
+      ReaderThms.Inv big data (R + N.to_nat (c_len c)) p' /\ ZA data p' /\
+      bits_read p' = Z.of_nat (R + N.to_nat (c_len c)) /\
+      s_pos (p_src p') = ((R + N.to_nat (c_len c) + 7) / 8)%nat.
+Proof. exact read_symbol_bytereader. Qed.
+Print Assumptions read_symbol_is_byte_exact_on_bytereader.
+
+(* Encoder table + Writer lookup, then Decoder table + ReadSymbol: every symbol of a valid code
+   written with its code word is read back, at any stream position, both bit orders *)
+Theorem symbol_written_with_encoder_is_read_by_decoder : forall codes,
+  dec_valid 27 codes -> syms_sorted codes -> (forall c, In c codes -> c_sym c < 2 ^ 27) ->
+  forall big data, (forall b, In b data -> b < 256) ->
+  forall oldC oldL R p c, In c codes -> ReaderThms.Inv big data R p ->
+    (R + N.to_nat (max_bits codes) <= 8 * length data)%nat ->
+    exists e d v nb, enc_init codes = IOk e /\ dec_init oldC oldL codes = IOk d /\
+      enc_lookup e (c_sym c) = Some (v, nb) /\
+      (firstn (N.to_nat nb) (skipn R (ReaderSpec.stream_bits big data)) = val_bits (N.to_nat nb) v ->
+       exists p', dt_read_symbol d p = (RSym (c_sym c), p') /\ bits_read p' = Z.of_nat (R + N.to_nat nb)).
+Proof. exact enc_dec_stream. Qed.
+Print Assumptions symbol_written_with_encoder_is_read_by_decoder.
+
+(* what GeneratePrefixes returns is a valid, zero-minimal code for these tables *)
+Theorem gen_prefixes_output_fits_the_decoder_table : gen_prefixes_valid_statement.
+Proof. exact gen_prefixes_table_valid. Qed.
+Print Assumptions gen_prefixes_output_fits_the_decoder_table.
